@@ -12,7 +12,7 @@ enum {
 	PR_BLOCKED = 8, PR_WAIT_TIMEOUT, PR_WAIT_CANCEL, PR_WAIT_WOKEN, PR_TRY_FAIL, PR_TRY_OK, PR_MUWAIT_SLEPT,
 	PR_COND_BY_OTHER, PR_NOTE_OBS_TRUE, PR_NOTE_FREED, PR_CTR_ZERO_WAITERS, PR_ONCE_LOSER_WAITED, PR_WAITN_HEAP,
 	PR_WAITN_WOKEN, PR_SEM_FAULT, PR_UNREF_SLOW, PR_DEBUG_CONTENDED, PR_BARGE_LONGWAIT, PR_ALLOC_FAILED, PR_GRID_NEG,
-	PR_CV_SIGNAL_VS_TIMEOUT, PR_READER_SHARED, PR_QUIESCE_JUDGED, PR_CV_TAKEN_BY_WAKER, PR_NPROBES
+	PR_CV_SIGNAL_VS_TIMEOUT, PR_READER_SHARED, PR_QUIESCE_JUDGED, PR_CV_TAKEN_BY_WAKER, PR_CLIENT_DTOR, PR_NPROBES
 };
 const char *nsim_probe_names[] = {
 	"dead_access", "tolerated_dead_read_run_discarded", "rt2", "rt3", "rt4", "rt5", "rt6", "rt7",
@@ -20,7 +20,7 @@ const char *nsim_probe_names[] = {
 	"mu_wait_slept", "condition_evaluated_by_other_thread", "note_observed_notified", "note_freed",
 	"counter_zero_with_waiters", "once_loser_waited", "wait_n_heap_array", "wait_n_woken_by_object", "sem_fault_injected",
 	"unref_slow_unlock", "debug_call_contended", "barge_victim_long_wait", "alloc_failed", "grid_negative_deadline",
-	"signal_raced_timeout", "readers_shared", "thread_judged_at_rest", "cv_wait_taken_off_queue_by_waker"
+	"signal_raced_timeout", "readers_shared", "thread_judged_at_rest", "cv_wait_taken_off_queue_by_waker", "client_tls_destructor_used_nsync"
 };
 const int nsim_nprobes = PR_NPROBES;
 
@@ -932,11 +932,27 @@ static int op_note_used (const op_t *o, int which) {
 	}
 }
 
+/* a client thread-local object whose destructor itself uses nsync (LOCK-ONLY with S.p[5]): it runs at thread exit, in an order
+   relative to nsync's own per-thread destructor that POSIX leaves open (the runtime makes it a recorded choice) */
+extern int nsim_sys_pthread_key_create (pthread_key_t *key, void (*dtor) (void *));
+extern int nsim_sys_pthread_setspecific (pthread_key_t key, const void *v);
+static pthread_key_t client_key;
+static int client_key_made;
+static void client_tls_dtor (void *v) {
+	int reader = (S.p[5] == 2);
+	(void) v;
+	nsim_probe (PR_CLIENT_DTOR);
+	if (do_acquire (0, reader ? 1 : 0)) {
+		nsim_point ();
+		do_release (0, !reader, 0);
+	}
+}
 static void thread_body (void *arg) {
 	int t = (int) (intptr_t) arg;
 	int j, w;
 	my_thread[nsim_self ()] = t;
 	thread_tid[t] = nsim_self ();
+	if (client_key_made) nsim_sys_pthread_setspecific (client_key, (void *) (intptr_t) (t + 1));
 	for (j = 0; j < S.nops[t]; j++) {
 		thread_op[t] = j;
 		if (S.family == FAM_GRID && t == 1 && S.ops[t][j].kind != OP_YIELD) grid_event_done = 1;
@@ -983,6 +999,8 @@ static void world_init (void) {
 	nsim_cfg.mu_wlock = MU_WLOCK;
 	nsim_cfg.mu_rlock_field = MU_RLOCK_FIELD;
 	nsim_cfg.mu_spinlock = MU_SPINLOCK;
+	client_key_made = 0;
+	if (S.family == FAM_LOCKONLY && S.p[5]) client_key_made = (nsim_sys_pthread_key_create (&client_key, &client_tls_dtor) == 0);
 	for (i = 0; i < S.nmu; i++) {
 		W.mu[i] = (nsync_mu *) nsim_alloc (sizeof (nsync_mu));
 		nsync_mu_init (W.mu[i]);
